@@ -185,9 +185,10 @@ def signature_header(nofs, nsize, ncrc, version=(0, 4)) -> bytes:
 def build(members, layout=None) -> bytes:
     """members: [{"name", "kind": file|dir|symlink|emptyfile, "data", "mtime","ctime","atime","attrs"}] in ARCHIVE order.
     layout keys (all optional):
-      folders: list of {"members": [indices into `members` of entries with data, in stream order], "chain": [...]};
+      folders: list of {"members": [indices into `members` of entries with data, in stream order], "chain": [...],
+                        "orphan": n bytes of data that belong to no member (only with members == [])};
                default: one folder with every data member, chain [LZMA2]
-      crc: "substream" | "folder" | "none"     packcrc: bool      packpos: filler bytes before the first pack stream
+      crc: "substream" | "folder" | "folder_partial" | "none"     packcrc: bool      packpos: filler bytes before the first pack stream
       omit_nums: omit kNumUnpackStream when all 1     dummy / dummy_tail: padding record sizes
       emptyfile_vector_always, names_first
       header: "raw" | "lzma" | "aes"     password, iv_seed
@@ -213,10 +214,14 @@ def build(members, layout=None) -> bytes:
     ivn = layout.get("iv_seed", 1)
     for fi, f in enumerate(folders_l):
         blob = b"".join(members[i]["data"] for i in f["members"])
+        if not f["members"] and f.get("orphan"):
+            # a folder that holds data but no member (NumUnpackStream == 0 with a non-zero unpack size): readers skip it
+            blob = bytes((k * 37 + 11) & 0xFF for k in range(f["orphan"]))
         iv = bytes(((ivn * 37 + fi * 11 + k * 7) & 0xFF) for k in range(16))
         packed, coders, sizes = encode_chain(blob, f["chain"], password, iv=iv)
         packs.append(packed)
-        fcrc = zlib.crc32(blob) if crc_mode == "folder" else None
+        # "folder": one CRC per folder; "folder_partial": only for the folders not marked "nocrc" (partially defined vector)
+        fcrc = zlib.crc32(blob) if (crc_mode == "folder" or (crc_mode == "folder_partial" and not f.get("nocrc"))) else None
         folders.append({"coders": coders, "sizes": sizes, "crc": fcrc})
         nums.append(len(f["members"]))
         ssizes.append([len(members[i]["data"]) for i in f["members"]])
